@@ -92,3 +92,58 @@ CONTRACTS = [
              note="K = 3 controls; which are due and their priorities are symbolic; feasibility controls have no backtrack (asserted by the code)",
              trusted=["ControlChecker.check (own contract)", "list.sort is a stable sort"]),
 ]
+
+
+# ---------------------------------------------------------------------------- _get_control_managers / _register_controls_with_observers
+
+import types
+from wntr.network.controls import _ControlType, ControlChecker, ControlChangeTracker
+
+
+class C(NativeModel):
+    def __init__(self, tag, ctype):
+        self.tag, self.epanet_control_type = tag, ctype
+
+    def __repr__(self):
+        return self.tag
+
+
+def _managers_case():
+    """which controls each checker holds, and in which order: the user's controls first (registration order of the model), then the simulator's own
+    tank-level, check-valve, pump and valve controls - so that at equal priority the simulator's protection acts last (stable priority sort, see above)"""
+    def build(cx):
+        T = _ControlType
+        user = [("u1", C("user_presolve", T.presolve)), ("u2", C("user_rule", T.rule)), ("u3", C("user_postsolve", T.postsolve)), ("u4", C("user_pre_and_post", T.pre_and_postsolve))]
+        tank = [C("tank_presolve", T.presolve), C("tank_postsolve", T.postsolve)]
+        cv = [C("cv_postsolve", T.postsolve)]
+        pump = [C("pump_postsolve", T.postsolve), C("pump_feasibility", T.feasibility)]
+        valve = [C("valve_postsolve", T.postsolve), C("valve_feasibility", T.feasibility)]
+        wn = types.SimpleNamespace(controls=lambda: list(user))
+        sim = cx.obj(WNTRSimulator, _wn=wn)
+        m = cx.interp.models
+        m.register(WNTRSimulator._get_all_tank_controls, lambda i, a, k: list(tank), verified_by="contracts/c06_tanks.py")
+        m.register(WNTRSimulator._get_cv_controls, lambda i, a, k: list(cv), verified_by="contracts/c02_status.py")
+        m.register(WNTRSimulator._get_pump_controls, lambda i, a, k: list(pump), verified_by="contracts/c02_status.py")
+        m.register(WNTRSimulator._get_valve_controls, lambda i, a, k: list(valve), verified_by="contracts/c02_status.py")
+        cx.target(WNTRSimulator._get_control_managers, sim)
+
+        def post(out):
+            if not out.returned:
+                return []
+            def held(field):
+                mgr = sim.fields[field]
+                lst = mgr.fields["_controls"] if hasattr(mgr, "fields") else mgr._controls
+                return [c.tag for c in lst]
+            return [("presolve_checker_holds_presolve_and_pre_and_postsolve_controls_user_first", held("_presolve_controls") == ["user_presolve", "user_pre_and_post", "tank_presolve"]),
+                    ("postsolve_checker_holds_postsolve_and_pre_and_postsolve_controls_user_first_then_tank_cv_pump_valve",
+                     held("_postsolve_controls") == ["user_postsolve", "user_pre_and_post", "tank_postsolve", "cv_postsolve", "pump_postsolve", "valve_postsolve"]),
+                    ("rule_checker_holds_exactly_the_rules", held("_rules") == ["user_rule"]),
+                    ("feasibility_checker_holds_exactly_the_feasibility_controls", held("_feasibility_controls") == ["pump_feasibility", "valve_feasibility"]),
+                    ("a_fresh_change_tracker", isinstance(sim.fields["_change_tracker"], ControlChangeTracker) or getattr(sim.fields["_change_tracker"], "cls", None) is ControlChangeTracker)]
+        cx.ensure(post)
+    return Case("four_user_controls_and_the_simulator_s_own", build, crosscheck=False)
+
+
+CONTRACTS.append(Contract("wntr.sim.core:WNTRSimulator._get_control_managers", P, [_managers_case()],
+                          note="one control of every type from every origin; ControlChecker.register_control is executed from its source",
+                          trusted=["the four _get_*_controls builders (own contracts)"]))
